@@ -60,4 +60,7 @@ func genFixes(repo string) {
 		strings.Contains(bp, "db.bdp.Update(func(txn*badger.Txn)error{iferr:=txn.Set(key,v);err!=nil{returnerr}iferr:=txn.Delete(tombstoneKey);err!=nil{returnerr}returnnil})") &&
 			strings.Contains(bd, "db.bdp.Update(func(txn*badger.Txn)error{iferr:=txn.Delete(key);err!=nil{returnerr}iferr:=txn.Set(tombstoneKey,dvid.EmptyValue());err!=nil{returnerr}returnnil})") &&
 			strings.Count(bp, "db.bdp.Update(") == 2 && strings.Count(bd, "db.bdp.Update(") == 2 && !strings.Contains(bp, "Raw") && !strings.Contains(bd, "Raw"), bp != "" && bd != "")
+	bh := sq("datastore", "repoT", "branchHeads")
+	emit("branchHeadIgnoresOtherBranchChildren", "branchHeads (the table rebuilt at start-up) takes a node as the head of its branch unless one of its children continues that branch (C03/C07: POST branch on a tip does not cost the tip's branch its head after a restart)",
+		strings.Contains(bh, "head:=truefor_,c:=rangenode.children{ifchild,found:=r.dag.nodes[c];found&&child.branch==node.branch{head=falsebreak}}ifhead{branchToUUID[node.branch]=node.uuid}"), bh != "")
 }
